@@ -3,7 +3,7 @@
 (* MaxLen atoms from AtomSel x every configuration of ConfSel x every format   *)
 (* of FmtSel.  A state is one (template, configuration, format); there are no  *)
 (* steps.                                                                      *)
-EXTENDS TemplatePinned, TLC, Json, IOUtils
+EXTENDS TemplatePinned, TemplateDeviations, TLC, Json, IOUtils
 CONSTANTS AtomSel, ConfSel, FmtSel, MaxLen
 VARIABLES atoms, ci, fi
 vars == <<atoms, ci, fi>>
@@ -46,26 +46,15 @@ NoRescan ==
 MissingAreUndefinedNamesOfTheTemplate ==
     \A m \in R.missing : ~ Defined(conf, m) /\ \E i \in 1..Len(t) : StartsWith(t, i, m) \/ m = <<>>
 
-\* line structure is kept: as long as no value contains a line terminator the output has the same
-\* terminators in the same order (a define line at the very end without terminator gets LF)
-Eols(s) == LET ls == Lines(s) IN [j \in 1..Len(ls) |-> Eol(ls[j])]
-LineEndingsKept ==
-    (~ R.err /\ \A j \in 1..Len(conf) : \A h \in 1..Len(conf[j].s) : conf[j].s[h] \notin {LF, CR})
-    => LET ein == Eols(t)
-           eout == Eols(R.text)
-           n == Len(ein)
-       IN IF n = 0 THEN eout = <<>> \/ R.text # <<>>
-          ELSE /\ Len(eout) <= n
-               /\ \A j \in 1..(n - 1) : ein[j] # <<>>
-               \* lines whose content vanished entirely at the end of the text leave no line behind
-               /\ \A j \in 1..Len(eout) : j < Len(eout) => eout[j] = ein[j]
-
 \* a header generated without a template: exactly the keys, once each, in sorted order
 HeaderHasExactlyKeysSorted ==
     LET H == Header(conf) IN
     /\ { H[j].k : j \in 1..Len(H) } = Keys(conf)
     /\ Len(H) = Cardinality(Keys(conf))
     /\ \A j \in 1..(Len(H) - 1) : SeqLess(H[j].k, H[j + 1].k)
+
+\* the named deviations (TemplateDeviations) are additions to the rule book, not part of it
+DeviationsOffIsRuleBook == ConfigureD(t, conf, fmt, {}) = R
 
 EmitSpace == TLCGet("stats").diameter >= 0 /\
              JsonSerialize("space.json", [atoms |-> AtomTable, confs |-> ConfTable, formats |-> Formats])
